@@ -307,6 +307,19 @@ func TestVerifC15(t *testing.T) {
 				os.WriteFile(p, gz([]byte(js)), 0644)
 			}},
 		}
+		// single-bit flips somewhere in the compressed stream: most give an undecodable stream, some decode to other bytes with a
+		// checksum that no longer matches - the loader must notice either
+		for k := 0; k < r.Pick(8, 40); k++ {
+			k := k
+			damages = append(damages, damage{fmt.Sprintf("bit-flip-%d", k), func(o []byte, p string) {
+				c := append([]byte{}, o...)
+				if len(c) > 40 {
+					pos := 12 + int((uint64(k)*2654435761+uint64(len(c))*40503)%uint64(len(c)-24))
+					c[pos] ^= 1 << (uint(k) % 8)
+				}
+				os.WriteFile(p, c, 0644)
+			}})
+		}
 		rng := r.Rand(1515)
 		nFiles := r.Pick(4, len(files))
 		perm := rng.Perm(len(files))
@@ -316,7 +329,7 @@ func TestVerifC15(t *testing.T) {
 			orig, _ := os.ReadFile(full)
 			assetPath := filepath.Dir(f)
 			for di, dm := range damages {
-				if !r.Thorough() && (di+fi+int(r.Seed))%3 != 0 && dm.name != "truncated-gzip-half" && dm.name != "valid-gzip-garbage" {
+				if !r.Thorough() && (di+fi+int(r.Seed))%3 != 0 && dm.name != "truncated-gzip-half" && dm.name != "valid-gzip-garbage" && !strings.HasPrefix(dm.name, "bit-flip") {
 					continue
 				}
 				caseNo++
